@@ -4,15 +4,22 @@ Read-side transfer functions with a stream that ends at an ARBITRARY symbolic po
 per function): LogContainer::uncompress (real body, assumed zlib contract), File::compressedFile2UncompressedFile (one
 complete container appended or the library exception and nothing appended), File::uncompressedFile2ReadWriteQueue (one
 completely decoded object pushed or nothing), worker loops stop and declare end of stream (C06 labels), codec reads on
-a truncated stream (C10: short read -> not good / exception at eof).  Prefix-exactness and monotonicity then follow
+a truncated stream: R6 - for every class, a decode during which any stream read was cut short by the (arbitrary)
+declared end never finishes with the stream good and without exception, so the object is not delivered.  Prefix-exactness and monotonicity then follow
 from the spec function delivered(cut) = objects wholly inside containers wholly below cut, which is monotone by
 construction; zlib's rejection of a damaged-but-complete stream is assumed.
 """
 import sys, os
 sys.path.insert(0, os.path.dirname(os.path.dirname(os.path.abspath(__file__))))
 from run import core
-from checks import file_common, c04
+from checks import file_common, c04, c10
+def rename(j):
+    """the hostile-stream decode jobs of C10 also carry the truncation clause R6 (reported here)"""
+    j.name = j.name.replace('C10_', 'C08_')
+    return j
+
+
 if __name__ == '__main__':
-    core.main_wrapper(lambda: file_common.run_property('C08', extra_jobs=lambda info: c04.compress_jobs(info)[1:], assumptions=[
+    core.main_wrapper(lambda: file_common.run_property('C08', extra_jobs=lambda info: c04.compress_jobs(info)[1:] + [rename(j) for j in c10.codec_jobs(info, [])], assumptions=[
         'zlib returns Z_OK with the exact length only for an intact stream (assumed contract)',
         'truncation of the byte stream is modelled by an arbitrary declared end of the abstract streams; the composition over a whole file (prefix-exactness, monotonicity) is an argument over the spec function, not a machine-checked obligation']))
